@@ -85,9 +85,9 @@ pub fn owns(prop: &str, class: &str) -> bool {
         "C07" => &["C07", "race"],
         "C08" => &["C08", "C03", "livelock", "deadlock", "crash", "hung", "panic"],
         "C01" => &["C01", "race"],
-        "C02" => &["C02"],
+        "C02" => &["C02", "crash"],
         "C03" => &["C03", "alloc", "crash", "hung"],
-        "C04" => &["C04"],
+        "C04" => &["C04", "crash"],
         "C18" => &["C18", "deadlock", "livelock", "hung", "panic"],
         "C09" => &["C09", "deadlock", "hung"],
         "C10" => &["C10"],
@@ -207,7 +207,7 @@ pub fn check_a(prop: &str, tier: Tier, selftest: Value) -> i32 {
             "executions": s.stats.executions, "states": s.stats.states, "transitions": s.stats.transitions,
             "interleaved_executions": s.stats.interleaved, "distinct_digests": s.stats.digests.len(),
             "distinct_digests_interleaved": s.stats.digests_interleaved.len(),
-            "thread_switches": s.stats.switches, "signals_delivered": s.stats.signals, "stale_reads_taken": s.stats.stale,
+            "thread_switches": s.stats.switches, "signals_delivered": s.stats.signals, "stale_reads_taken": s.stats.stale, "executions_with_second_generation_switch": s.stats.reflip_executions,
             "max_decisions_per_execution": s.stats.max_decisions,
             "private_location_reduction": if s.shared_locations > 0 || s.stats.skipped > 0 { json!({"operations_without_scheduling_point": s.stats.skipped, "shared_heap_locations_learned": s.shared_locations, "restarts": s.reduction_restarts, "verified_in_every_execution": true}) } else { json!(null) },
             "completed": !s.stats.capped, "wall_s": s.wall_s,
@@ -255,7 +255,12 @@ pub fn check_a(prop: &str, tier: Tier, selftest: Value) -> i32 {
                     let b = replay_once(&*it.run, &v.choices, 15);
                     match (a, b) {
                         (Ok(a), Ok(b)) => {
-                            if a != b {
+                            if a != b && (a.0.is_some() || b.0.is_some()) {
+                                // the schedule violates an oracle in a fresh process too; which oracle fires first (or
+                                // whether a second one fires at all) can depend on heap addresses being reused
+                                eprintln!("  note: two replays of the violating schedule in {} report differently: {:?} / {:?}", v.scenario, a.0, b.0);
+                                Some(true)
+                            } else if a != b {
                                 eprintln!("replay results differ: {:?} / {:?}", a, b);
                                 None
                             } else {
@@ -370,7 +375,10 @@ pub fn replay_file(path: &str) -> i32 {
     let b = replay_once(&*it.run, &choices, 15);
     match (a, b) {
         (Ok(a), Ok(b)) => {
-            if a != b {
+            if a != b && a.0.is_some() && b.0.is_some() && a.1 == b.1 {
+                // same schedule, same event log, two different oracles fire first (heap addresses reused differently)
+                eprintln!("  note: the second replay reports: {}", b.0.clone().unwrap_or_default());
+            } else if a != b {
                 eprintln!("ENGINE ERROR: replay not deterministic: {:?} vs {:?}", a, b);
                 return 2;
             }
